@@ -8,8 +8,8 @@ CHECKS = {
  'C01': ('reference-model trace monitor (executable ES5.1 interpreter as oracle) over generated programs x 6 routes; known defects as deviation models',
          'Every generated program is executed by the real interpreter through each submission route and by an independent ES5.1 reference interpreter; host-call trace, completion value and uncaught-exception class must agree. Exploration: held on the programs generated for the seed; says nothing about programs outside the generator.',
          'trusted base: internal/refjs (written from the ES5.1 text), internal/pgen generator, insertion-order enumeration assumption; number formatting inside the model via strconv'),
- 'C02': ('crash/hang monitor: recover() at the API boundary + child-process isolation with the call announced on disk before it is made; full built-in surface x receiver kinds x argument kinds; hostile sources through every entry point; accessors on every produced value; stack-limit recursion shapes',
-         'Every function reachable from the global object is called with every receiver kind and sampled argument tuples through call/new/apply/bind and the Go API; every result goes through all Value/Object accessors; mutated programs and junk go through Run/Eval/Compile/Call/Object/eval/Function; recursion shapes around configured limits must end in a catchable RangeError. A Go panic, a process death or a confirmed hang is a violation. Exploration over a finite product (sampled in quick).',
+ 'C02': ('crash/hang monitor: recover() at the API boundary + child-process isolation with the call announced on disk before it is made; full built-in surface x receiver kinds x argument kinds (sampled pairs plus a fully crossed position/count boundary product on receivers with a length); hostile sources through every entry point; accessors on every produced value; stack-limit recursion shapes',
+         'Every function reachable from the global object is called with every receiver kind and sampled argument tuples through call/new/apply/bind and the Go API; every result goes through all Value/Object accessors; mutated programs and junk go through Run/Eval/Compile/Call/Object/eval/Function; recursion shapes around configured limits (incl. host functions calling back through the Go API at the exact depth of refusal) must end in a catchable RangeError. A Go panic, a process death or a confirmed hang is a violation. Exploration over a finite product (sampled in quick).',
          'trusted base: none beyond the harness (no model needed); resource exhaustion (huge lengths / digit counts) excluded by construction'),
  'C03': ('generating-tree oracle: parser output compared node by node with the tree that produced the text, 6 renderings per tree',
          'The syntax tree that generated the source text is the oracle for the parser; exhaustive over ordered operator pairs, random over the rest of the grammar, with white-space/comment/ASI/parenthesis renderings. Exploration.',
@@ -48,10 +48,10 @@ CHECKS = {
          'Reflect-generated Go values of every supported kind at width boundaries and JS values from the boundary set; originals and read-backs must agree under the documented normal form; Go-API calls must equal in-language calls. Exploration.',
          'trusted base: internal/refbridge (exact rational comparison, documented Export contract)'),
  'C16': ('exact-or-loud relation + shadow-model history checker for bridged containers',
-         'Go functions of every parameter type called with boundary JS values: the callee received exactly the denoted value or the script saw a TypeError/RangeError; histories of script and Go-side mutations on bridged slices/maps/structs compared with a shadow copy after every step. Exploration.',
+         'Go functions of every parameter type called with boundary JS values: the callee received exactly the denoted value or the script saw a TypeError/RangeError; histories of script and Go-side mutations on bridged slices/maps/structs compared with a shadow copy after every step; live histories on a pointer-bridged struct (embedded pointer, pointer field, slice, map, nested struct) in which Go re-points or writes in place and the script reads and writes, the Go struct being the ground truth after every step. Exploration.',
          'trusted base: internal/refbridge; otto README contract for bridged calls'),
  'C18': ('step-indexed fault injection through the product\'s own interrupt channel (self-re-arming function = step hook), dry-run prefix oracle, state-at-rest hook, follow-up probe; control-runtime promptness check; stack-limit threshold check',
-         'Every polling step of generated programs (all k up to 300 per program) gets an interrupt panic; Run must unwind with exactly that panic, the host-call trace and global fuel counter must equal the dry-run prefix, scope depth and label count (verif hook) must be zero and a probe script must still work; the same for host-function panics, uncaught exceptions and stack-limit RangeErrors; poll-free loop shapes are interrupted from another goroutine against a control runtime; limit L admits exactly L-1 nested plain calls. Fault enumeration over polling steps of the generated programs.',
+         'Every polling step of generated programs (all k up to 300 per program) gets an interrupt panic; Run must unwind with exactly that panic, the host-call trace and global fuel counter must equal the dry-run prefix, scope depth and label count (verif hook) must be zero and a probe script must still work; the same for host-function panics, uncaught exceptions and stack-limit RangeErrors; poll-free loop shapes are interrupted from another goroutine against a control runtime; limit L admits exactly L-1 nested plain calls; a host function that calls back through Otto.Call / Value.Call at every depth around the limit and carries on after a refusal leaves every frame in its own context, an empty scope stack and the full limit. Fault enumeration over polling steps of the generated programs.',
          'trusted base: the interpreter polls deterministically (dry run and injected run number steps identically); hook verif_hooks.go (read-only)'),
  'C19': ('generator-known positions and classes: error class/shape observed in-script and through Run, every stack frame line compared with the call sites the generator placed, syntax error positions; known call-site defects as exact deviation models',
          'About 70 error-raising constructs x 12 nestings (class, prototype chain, message, String(e), Run text); chains of up to 12 frames of every call form with generated line/column positions x trace limits x file names; offending tokens at generated positions through ParseFile/Run/eval/Function. Exploration.',
